@@ -766,7 +766,8 @@ loop:
 			} else {
 				var l string
 				l, s.rest = c13Line(s.rest)
-				ret = "l1:" + vh.HxS(l)
+				// reading is not this property's subject: with RS = "\n" the record splitter (bufio.ScanLines) drops one CR at the end of a line
+				ret = "l1:" + vh.HxS(strings.TrimSuffix(l, "\r"))
 			}
 		case "exit":
 			sp.Outcome = fmt.Sprintf("ok%d", op.V)
@@ -1409,6 +1410,11 @@ func c13NLCorpus() []c13Case {
 		} {
 			res = append(res, c13Case{Out: []string{"plain", "bufio", "rec"}[(di+k)%3], Fail: -1, NL: "crlf", Ops: ops})
 		}
+	}
+	// reading back what was written (getline drops one CR before the LF: bufio.ScanLines)
+	for k, nl := range []string{"crlf", "raw"} {
+		res = append(res, c13Case{Out: []string{"bufio", "plain"}[k], Fail: -1, NL: nl, Ops: []c13Op{pr("gt", "f1", "a"), pr("gt", "f1", "b\r"), pf("gt", "f1", "c\r"),
+			{K: "close", N: "f1"}, {K: "gf", N: "f1"}, {K: "gf", N: "f1"}, {K: "gf", N: "f1"}, {K: "gf", N: "f1"}}})
 	}
 	for _, nl := range []string{"crlf", "raw", "smart", ""} {
 		for di, dst := range dsts {
